@@ -19,6 +19,9 @@ CLAIMED = {
  'C03': dict(engine='symx', design='4/C03', technique='symbolic execution of the real fuse/unfuse/mask/block code on solver-variable tensor elements; z3 equality of un-fused results with the NumPy reference on un-fused operands; catalogue of fusion plans and sector-mismatch patterns as bound',
    text='unfuse(fuse(a)) == a (dense + legs incl. history) for random ordered partitions, depth <= 2 (thorough 3), hard/meta/mixed; norm^2 preserved as a polynomial identity; tensordot / + / - / vdot / trace over flat and nested fused legs equal the same operation over the original legs for operands whose matched legs have equal, subset, superset, overlapping or disjoint sector sets on EVERY fused sub-leg (missing sectors act as zeros); block() equals the direct-sum placement oracle; six families of incompatible fusion histories must raise YastnError and nothing else; a YastnError on a compatible pair is itself a violation.',
    note='Trusted: z3; harness dense re-assembly. Outside: depth > 3, > 4 legs per group.'),
+ 'C14': dict(engine='symx', design='4/C14', technique='differential symbolic execution: the same bounded program on the same solver variables under configurations differing only in tensordot_policy / default_fusion / force_fusion / inserted consume_transpose()/copy(); z3 equality of dense results; contract_with_unroll vs ncon for every unroll spec and path',
+   text='Eight program templates (tensordot chain, ncon with two orders, fuse->dot->fuse->unfuse with mode taken from the config, transpose->add, fuse->sub, dot->trace, dot->svd, dot->qr through contract stubs) are run under >= 7 configuration variants each (all 3 policies, hard/meta default and forced fusion, 4 materialisation patterns); all results must have equal charge, consistent legs and identical dense values for all input values. contract_with_unroll: contracted/output/both/two-contracted labels x sector / uniform(1,2,3) / intra-sector slicings x 3 contraction paths (+ compute_constants variant) against ncon.',
+   note='Trusted: z3; LAPACK contracts for dot->svd/qr. Legs are compared up to charge sectors that hold no block (a hard-fusion history may remember such sectors, meta fusion does not; the dense values on the union are decided equal). Outside: programs outside the templates.'),
 }
 NA = {
  'C09': 'DMRG: outcome of iterated floating-point Krylov eigen-solves and LAPACK sweeps; a contract stub for eigs would assume the conclusion, chained LAPACK contracts need non-linear ideal reasoning z3/cvc5 do not finish (DESIGN 5)',
